@@ -229,12 +229,9 @@ def locate_item(src, kw, name):
     for mm in re.finditer(r'\b%s\s+%s\b' % (kw, re.escape(name)), m):
         start = mm.start()
         depth = m.count('{', 0, start) - m.count('}', 0, start)
-        in_verus = bool(re.search(r'verus!\s*\{', m[:start])) and depth == 1
-        in_impl = False
-        if depth == 1 and not in_verus:
-            # associated const inside an impl block
-            in_impl = True
-        if depth > 1 and not (in_verus and depth == 2): continue
+        has_verus = bool(re.search(r'verus!\s*\{', m[:start]))
+        # top level, inside `verus! {`, or an associated const of an impl block at either level
+        if depth > (2 if has_verus else 1): continue
         o = m.find('{', start); semi = m.find(';', start)
         if kw in ('const', 'static', 'type') or (0 <= semi and (o < 0 or semi < o)):
             return start, semi + 1
